@@ -336,7 +336,7 @@ func TestContention(t *testing.T) {
 				}
 			}(g)
 		}
-		done := ctl.Within(ctl.HangTimeout, wg.Wait)
+		done := withinHang(wg.Wait)
 		mu.Lock()
 		p := problem
 		mu.Unlock()
